@@ -135,11 +135,14 @@ func (g *Gen) lookupNamed(name string) types.Type {
 		return nil
 	}
 	pp, tn := name[:i], name[i+1:]
-	for _, sp := range g.P.SSA.AllPackages() {
-		p := sp.Pkg.Path()
-		if p == pp || ShortName(p+".")[:len(ShortName(p+"."))-1] == pp {
-			if obj, ok := sp.Pkg.Scope().Lookup(tn).(*types.TypeName); ok {
-				return obj.Type()
+	// exact import path first (the standard library's "hash" and the module's own package "hash" share a short name)
+	for _, exact := range []bool{true, false} {
+		for _, sp := range g.P.SSA.AllPackages() {
+			p := sp.Pkg.Path()
+			if (exact && p == pp) || (!exact && ShortName(p+".")[:len(ShortName(p+"."))-1] == pp) {
+				if obj, ok := sp.Pkg.Scope().Lookup(tn).(*types.TypeName); ok {
+					return obj.Type()
+				}
 			}
 		}
 	}
